@@ -46,6 +46,12 @@ def normalise(atoms):
       out[-1] = ('u', w1 + a[1], v1 * z3.IntVal(256 ** a[1]) + a[2])
     elif a[0] == 'u' and a[1] == 0:
       continue
+    elif a[0] == 'sl' and out and out[-1][0] == 'sl' and z3.eq(out[-1][1], a[1]) and \
+        z3.is_true(z3.simplify(out[-1][2] + out[-1][3] == a[2])):
+      # adjacent slices of the same stream join: s[p:p+a] ++ s[p+a:p+a+b] = s[p:p+a+b]
+      out[-1] = ('sl', a[1], out[-1][2], z3.simplify(out[-1][3] + a[3]))
+    elif a[0] == 'sl' and z3.is_true(z3.simplify(a[3] == 0)):
+      continue
     else:
       out.append(a)
   return out
@@ -59,6 +65,8 @@ def blen(atoms):
     elif a[0] == 'raw':
       n = n + a[2]
     elif a[0] == 'fix':
+      n = n + a[3]
+    elif a[0] == 'sl':
       n = n + a[3]
   return z3.simplify(n)
 
@@ -77,6 +85,9 @@ def atoms_eq(a, b):
         parts.append(z3.And(f[1] == r[1], f[2] == r[2], f[3] == f[2]))
         continue
       return None
+    if x[0] == 'sl':
+      parts.append(z3.And(x[1] == y[1], x[2] == y[2], x[3] == y[3]))
+      continue
     if x[0] == 'u':
       if x[1] != y[1]:
         return None
@@ -355,6 +366,8 @@ class BytesMixin(object):
       return mk_bytes(atoms)
     if name == 'braw':
       return mk_bytes([('raw', coerce(args[0], ANY) if args[0].ty.k != 'int' else args[0].t, num_term(args[1], False))])
+    if name == 'bslice':       # bytes [pos, pos+n) of the (opaque) byte stream named by the first argument
+      return mk_bytes([('sl', args[0].t if args[0].ty.k == 'int' else coerce(args[0], ANY), num_term(args[1], False), num_term(args[2], False))])
     if name == 'bempty':
       return mk_bytes([])
     if name == 'blen':
@@ -407,4 +420,4 @@ class BytesMixin(object):
 
 
 BYTE_SPEC_FNS = ('bi8', 'bu8', 'bi16', 'bu16', 'bu24', 'bi32', 'bu32', 'bi64', 'bcat', 'braw', 'bempty', 'blen', 'beq',
-                 'written', 'content', 'utf8', 'bmark', 'since', 'sum_of', 'crc_of', 'summands', 'stream_front')
+                 'written', 'content', 'utf8', 'bmark', 'since', 'sum_of', 'crc_of', 'summands', 'stream_front', 'bslice')
